@@ -27,6 +27,24 @@ IsEvent(e) == l <= Len(Rec) /\ Rec[l].ev = e /\ l' = l + 1
 PtLen == Rec[1].ptlen
 ScLen == Rec[1].sclen
 
+(***************************************************************************)
+(* What is compared is selected per check through environment variables,   *)
+(* so that a check raises an alarm only for what its property states:      *)
+(*   CMP_H  returned handles, gate counts and error kinds of builder calls *)
+(*   CMP_O  transcript operations (order, labels, payload identity)        *)
+(*   CMP_P  the emitted proof equals the reference prover's, field by field*)
+(*          (includes: the RNG draw count)                                 *)
+(*   CMP_E  result / error kind of prove                                   *)
+(*   CMP_V  verdict / error kind of verify                                 *)
+(* Unset = compared ("1"); "0" switches a comparison off.                  *)
+(***************************************************************************)
+Flag(n) == ~(n \in DOMAIN IOEnv /\ IOEnv[n] = "0")
+CmpH == Flag("CMP_H")
+CmpO == Flag("CMP_O")
+CmpP == Flag("CMP_P")
+CmpE == Flag("CMP_E")
+CmpV == Flag("CMP_V")
+
 (* does a recorded transcript operation equal the operation the model performs? *)
 OpMatch(r, e) ==
   /\ r.o = e.o
@@ -41,8 +59,8 @@ OpMatch(r, e) ==
          [] e.t = "raw" -> Has(r, "raw") /\ r.raw = e.v
 
 OpsMatch(logged, model) ==
-  /\ Len(logged) = Len(model)
-  /\ \A k \in 1 .. Len(logged) : OpMatch(logged[k], model[k])
+  CmpO => /\ Len(logged) = Len(model)
+          /\ \A k \in 1 .. Len(logged) : OpMatch(logged[k], model[k])
 
 NewOps(role) == SubSeq(tr'[role], Len(tr[role]) + 1, Len(tr'[role]))
 
@@ -75,37 +93,40 @@ TraceNew ==
 TraceCall ==
   /\ IsEvent("call") /\ ~degen
   /\ Call(Ev.role, CallOf(Ev))
-  /\ out'.ret = Ev.ret
-  /\ out'.err = Ev.err
+  /\ CmpH => (out'.ret = Ev.ret /\ out'.err = Ev.err)
   /\ OpsMatch(Ev.tx, NewOps(Ev.role))
 
 \* rng_ok = FALSE: the recorded RNG output did not parse as a whole number of scalar draws
 RngOk(used) == Ev.rng_ok /\ Len(Ev.rng) = used
 Draws == Ev.rng
 
+\* the value the code appended under `label` during this event (0 if absent)
+Appended(label) ==
+  LET sel == SelectSeq(Ev.tx, LAMBDA r : r.o = "A" /\ r.l = label /\ Has(r, "pt"))
+  IN IF Len(sel) >= 1 THEN sel[1].pt ELSE 0
+
 TraceProve1 ==
   /\ IsEvent("prove1") /\ ~degen
-  /\ ProveStart(Ev.cap, Draws)
-  /\ RngOk(out'.used)
+  /\ ProveStart(Ev.cap, Draws, [AI1 |-> Appended("A_I1"), AO1 |-> Appended("A_O1"), S1 |-> Appended("S1")])
+  /\ CmpP => (RngOk(out'.used) /\ mid'.P.em = out'.ref)
   /\ OpsMatch(Ev.tx, NewOps("P"))
 
-ProofMatches == wire' # NoProof /\ Has(Ev, "proof") /\ Ev.proof = wire'
+EmittedProof == IF Has(Ev, "proof") THEN Ev.proof ELSE NoProof
 
 ProveOutcome ==
   \/ degen'                                   \* zero challenge: the code panics or errs; nothing is demanded
-  \/ /\ res'.P = Ev.res
-     /\ RngOk(out'.used)
+  \/ /\ CmpE => res'.P = Ev.res
      /\ OpsMatch(Ev.tx, NewOps("P"))
-     /\ res'.P = "ok" => ProofMatches
+     /\ (CmpP /\ res'.P = "ok") => (RngOk(out'.used) /\ wire' = out'.ref)
 
 TraceProve2 ==
   /\ IsEvent("prove2") /\ ~degen
-  /\ \/ ProveFinish(Ev.cap, Draws, ChVals(Ev.tx)) /\ ProveOutcome
-     \/ ProveAbort /\ res'.P = Ev.res /\ Ev.tx = << >>
+  /\ \/ ProveFinish(Ev.cap, Draws, ChVals(Ev.tx), EmittedProof) /\ ProveOutcome
+     \/ ProveAbort /\ (CmpE => res'.P = Ev.res) /\ (CmpO => Ev.tx = << >>)
 
 TraceProve ==
   /\ IsEvent("prove") /\ ~degen
-  /\ Prove(Ev.cap, Draws, ChVals(Ev.tx))
+  /\ Prove(Ev.cap, Draws, ChVals(Ev.tx), EmittedProof)
   /\ ProveOutcome
 
 TraceWire ==
@@ -119,13 +140,13 @@ TraceVerify1 ==
 
 VerifyOutcome ==
   \/ degen'
-  \/ /\ res'.V = Ev.res
+  \/ /\ CmpV => res'.V = Ev.res
      /\ OpsMatch(Ev.tx, NewOps("V"))
 
 TraceVerify2 ==
   /\ IsEvent("verify2") /\ ~degen
   /\ \/ VerifyFinish(Ev.cap, ChVals(Ev.tx)) /\ VerifyOutcome
-     \/ VerifyAbort /\ res'.V = Ev.res /\ Ev.tx = << >>
+     \/ VerifyAbort /\ (CmpV => res'.V = Ev.res) /\ (CmpO => Ev.tx = << >>)
 
 TraceVerify ==
   /\ IsEvent("verify") /\ ~degen
